@@ -331,6 +331,14 @@ impl<'tcx> Cx<'tcx> {
                     let d = with_no_trimmed_paths!(format!("{}", c));
                     let _ = write!(o, ",\"dbg\":{}", esc(&d));
                     if let Const::Unevaluated(uv, _) = c {
+                        // a named constant of the crate (`const PARK: Duration = Duration::from_millis(1)`): its value, so
+                        // that a rule about "a constant of at most .." reads the named form like the literal one
+                        if uv.promoted.is_none() && uv.def.is_local() && t.is_adt() {
+                            if let Ok(val) = c.eval(tcx, env, rustc_span::DUMMY_SP) {
+                                let ev = with_no_trimmed_paths!(format!("{}", Const::Val(val, t)));
+                                let _ = write!(o, ",\"eval\":{}", esc(&ev));
+                            }
+                        }
                         if let Some(pi) = uv.promoted {
                             let _ = write!(
                                 o,
